@@ -404,7 +404,12 @@ class Resolver:
         if self._cg is not None:
             return self._cg
         g = nx.MultiDiGraph()
-        stats = {"resolved": 0, "external": 0, "unresolved": 0, "builtin-method": 0}
+        stats = {"resolved": 0, "external": 0, "unresolved": 0, "builtin-method": 0, "external-method": 0}
+        pkg_methods = set()
+        for m in self.repo.modules.values():
+            for q in m.funcs:
+                if "." in q:
+                    pkg_methods.add(q.rsplit(".", 1)[1])
         for f in self.repo.all_funcs():
             g.add_node(f.fq)
             for c in fn_calls(f.node):
@@ -423,6 +428,9 @@ class Resolver:
                     stats["external"] += 1
                 elif cal.kind == "builtin-method":
                     stats["builtin-method"] += 1
+                elif isinstance(c.func, ast.Attribute) and c.func.attr not in pkg_methods:
+                    # a method no class of the package defines: cannot be a package callee
+                    stats["external-method"] += 1
                 else:
                     stats["unresolved"] += 1
                     self.unresolved.append((f.fq, ast.unparse(c.func)[:60], c.lineno))
